@@ -199,4 +199,7 @@ func checkC05(r *evid.Run) {
 	bigw := traceSpecBig
 	bigw.Ops = []string{"walk"}
 	traceDocs(r, "C05", bigw)
+	fanw := traceSpecFan
+	fanw.Ops = []string{"walk"}
+	traceDocs(r, "C05", fanw)
 }
